@@ -186,6 +186,8 @@ class GenericCallAdapter(Adapter):
                     new_code=self.context.file._value_to_code(value.value),
                     new_value=value.value,
                 )
+                # the new argument is part of the new value
+                result_args.append(value.value)
 
         # keyword arguments
         result_kwargs = {}
